@@ -121,6 +121,10 @@ class Engine:
         v = self.voc
         if esort not in NATIVE:
             return None
+        if z3.is_app(term) and term.decl().kind() == z3.Z3_OP_ITE:
+            c_, a_, b_ = term.children()
+            fa, fb = self.elem_type_fact(a_, pt, esort), self.elem_type_fact(b_, pt, esort)
+            return z3.If(c_, fa, fb) if fa is not None and fb is not None else None
         c = v.cls[esort]
         if pt in ("list", "tuple"):
             j = self.bv("ej", z3.IntSort())
@@ -129,6 +133,13 @@ class Engine:
             x = self.bv("ex")
             return z3.ForAll([x], z3.Implies(v.has(term, x), v.ty(x) == c), patterns=[v.has(term, x)])
         return None
+
+    def ite_map(self, term, fn):
+        """apply fn to the leaves of a (nested) if-then-else term: keeps constructor axioms applicable"""
+        if z3.is_app(term) and term.decl().kind() == z3.Z3_OP_ITE:
+            c, a, b = term.children()
+            return z3.If(c, self.ite_map(a, fn), self.ite_map(b, fn))
+        return fn(term)
 
     def add_global_fact(self, f):
         if not any(g.get_id() == f.get_id() for g in self.global_facts):
@@ -185,6 +196,9 @@ class Engine:
         return SV(term, pt)
 
     def truth(self, sv: SV):
+        if sv.py and isinstance(sv.py, tuple) and sv.py[0] == "boolop":
+            ts = [self.truth(p) for p in sv.py[2]]
+            return z3.And(ts) if sv.py[1] == "and" else z3.Or(ts)
         if sv.pt == "bool":
             return sv.t
         if sv.pt == "int":
